@@ -525,6 +525,19 @@ _EXTRA9B = {
 for _k, _v in _EXTRA9B.items():
     CHECKS[_k]["rule"] += _v
 
+# tenth round
+_EXTRA10 = {
+    "C01": " Tenth round: runs of messages that differ only in the middle, signed under one dictated salt, each judged by the reference as well.",
+    "C02": " Tenth round: single-tall-coefficient triples (k around the square roots of both bounds, s1 = 0); a valid crafted triple for "
+           "every message length 0..=8448.",
+    "C08": " Tenth round: signatures made in destructors while their threads are unwinding (8 threads per wave, each guard signs twice).",
+    "C09": " Tenth round: centres a hair below an integer (-5e-324, -1e-17, 1 - 2^-53, ...) in the totality and distribution legs.",
+    "C14": " Tenth round: fingerprint 'first 32 and last 8 bytes' (strings that differ only in the middle).",
+    "C16": " Tenth round: message-length sweep (every length 3968..=4224, every 61st up to 20000), own and reference signatures.",
+}
+for _k, _v in _EXTRA10.items():
+    CHECKS[_k]["rule"] += _v
+
 NOT_APPLICABLE = {}
 
 ENGINES = [
